@@ -5,6 +5,14 @@ ROOT = os.path.dirname(os.path.dirname(os.path.abspath(__file__)))
 CORE, BIN, PY3, BS, EXPR, CONT = 'construct/core.py', 'construct/lib/binary.py', 'construct/lib/py3compat.py', 'construct/lib/bitstream.py', 'construct/expr.py', 'construct/lib/containers.py'
 MUTANTS = [
     # id, property, file, old, new
+    ('entry-parse-flag', 'C07', CORE, "        context._parsing = True\n        context._building = False\n        context._sizing = False\n        context._params = context\n        try:", "        context._parsing = True\n        context._building = True\n        context._sizing = False\n        context._params = context\n        try:"),
+    ('entry-sizeof-path', 'C18', CORE, 'return self._sizeof(context, "(sizeof)")', 'return self._sizeof(context, "(sizing)")'),
+    ('entry-build-params-copy', 'C07', CORE, "        context._sizing = False\n        context._params = context\n        self._build(obj, stream, context, \"(building)\")", "        context._sizing = False\n        context._params = Container(**contextkw)\n        self._build(obj, stream, context, \"(building)\")"),
+    ('entry-parse-file-drops-kw', 'C17', CORE, "            return self.parse_stream(f, **contextkw)", "            return self.parse_stream(f)"),
+    ('entry-build-drops-obj', 'C17', CORE, "        stream = io.BytesIO()\n        self.build_stream(obj, stream, **contextkw)\n        return stream.getvalue()", "        stream = io.BytesIO()\n        self.build_stream(None, stream, **contextkw)\n        return stream.getvalue()"),
+    ('transformed-uses-encodefunc-on-parse', 'C10', CORE, "        data = self.decodefunc(data)\n        return self.subcon._parsereport(io.BytesIO(data), context, path)", "        data = self.encodefunc(data)\n        return self.subcon._parsereport(io.BytesIO(data), context, path)"),
+    ('transformed-build-checks-decodeamount', 'C10', CORE, "            if len(data) != self.encodeamount:", "            if len(data) < self.encodeamount:"),
+    ('bitsint-swapped-skipped-on-build', 'C10', CORE, "            data = integer2bits(obj, length, self.signed)\n            if evaluate(self.swapped, context):\n                data = swapbytesinbits(data)", "            data = integer2bits(obj, length, self.signed)\n            if evaluate(self.swapped, context) and length > 8:\n                data = swapbytesinbits(data)"),
     ('xor-parse-cycle', 'C15', CORE, "                data = bytes((b ^ p) for b,p in zip(data, itertools.cycle(pad)))\n        substream", "                data = bytes((b ^ p) for b,p in zip(data, itertools.cycle(pad[::-1])))\n        substream"),
     ('xor-build-zero-shortcut', 'C15', CORE, "            if not (pad == 0):\n                data = bytes((b ^ pad) for b in data)\n        if isinstance(pad, bytes):\n            if not (len(pad) <= 64 and pad == bytes(len(pad))):\n                data = bytes((b ^ p) for b,p in zip(data, itertools.cycle(pad)))\n        stream_write",
      "            if not (pad == 0):\n                data = bytes((b ^ pad) for b in data)\n        if isinstance(pad, bytes):\n            if not (len(pad) <= 64 and pad[:1] == bytes(1)):\n                data = bytes((b ^ p) for b,p in zip(data, itertools.cycle(pad)))\n        stream_write"),
